@@ -1,4 +1,4 @@
-import TinsModel.Wire.App.Theorems
+import TinsModel.Wire.App.TheoremsFixed
 /- RTP: C01 parse safety (CSRC loop, extension loop, padding), C02 size exactness of header + extension + padding -/
 namespace Tins.Wire.App
 open Tins Tins.Wire
